@@ -11,8 +11,8 @@ from .common import Leaf
 from .c02 import same_field
 
 REQUIRED_WITNESSES = ['C', 'P', 'E:InvalidChunkSize']
-BOUNDS = {'quick': 'Kani: every buffer of <= 12 bytes (exact value, offset, accepted language; debug-assertion and release control flow, CBMC overflow checks on); engine M: every buffer of <= 5 bytes on release MIR, <= 4 on debug MIR with identical-result assertion, digit-run templates of 15/16/17 hex digits with the first and last two digits symbolic',
-          'thorough': 'Kani: every buffer of <= 20 bytes (covers 0..=17+ digits with every digit pattern); engine M: <= 7 / 6 bytes, templates with 4 symbolic digits'}
+BOUNDS = {'quick': 'Kani: every buffer of <= 12 bytes (exact value, offset, accepted language; debug-assertion and release control flow, CBMC overflow checks on); engine M: every buffer of <= 5 bytes on release MIR, <= 4 on debug MIR with identical-result assertion, digit-run templates of 15/16/17 hex digits with the first and last two digits symbolic; extensions and whitespace runs of every length 0..=24 with a 2-byte symbolic window at every offset, followed by CRLF and chunk data',
+          'thorough': 'Kani: every buffer of <= 20 bytes (covers 0..=17+ digits with every digit pattern); engine M: <= 7 / 6 bytes, templates with 4 symbolic digits; extension / whitespace runs to 40 bytes with a 3-byte window'}
 OUTSIDE = 'buffers longer than 20 bytes (extensions of arbitrary length are covered only up to the bound)'
 EXPLANATION = 'Kani harness chunk_spec_N: parse_chunk_size(buf[..len]) == refmodel::ref_chunk(buf[..len]) for symbolic buf and len; unwinding assertions on; counterexamples are extracted with concrete playback and replayed natively'
 ASSUMPTIONS = ['Kani/CBMC model of the compiled crate', 'refmodel::ref_chunk transcribes the accepted language of the property text']
@@ -69,6 +69,24 @@ def jobs(tier, seed):
                                  bud, f'{nd - k} x "f" + {k} symbolic hex digit(s) + CRLF ({variant})', mandatory=True))
             J.append(product_job(P, f'digits{nd}-zeros-{variant}', ['ref', 'safety'], sc('chunk', k, prefix=b'0' * (nd - k), suffix=b'\r\n', variant=variant, fixed={i: HEX for i in range(k)}),
                                  bud, f'{nd - k} x "0" + {k} symbolic hex digit(s) + CRLF ({variant})', mandatory=True))
+    # long extensions / whitespace runs (a block-wise fast path only runs when 8+ bytes are in view): a symbolic window slid over an
+    # extension of every length 0..=24 (quick: 2 bytes, step 1) followed by the CRLF and by chunk data that contains further CRLFs,
+    # so that a missed or an invented terminator changes (n, size)
+    w = T(tier, 2, 3); TAIL = b'\r\nabcd\refgh\r\n0\r\n\r\n'
+    for L in range(0, T(tier, 24, 40) + 1):
+        for fill, nm, head in ((b'x', 'ext', b'1f;'), (b' ', 'ws', b'A'), (b'\t', 'ws-ext', b'0 ;')):
+            body = (fill * L) if nm != 'ws-ext' else (b'y' * L)
+            offs = range(0, max(1, L - w + 1)) if L >= w else [0]
+            for off in offs:
+                ns = min(w, L)
+                if ns == 0:
+                    if nm != 'ext': continue
+                    scx = sc('chunk', 1, prefix=head[:-1], suffix=TAIL, variant='swar-rel')
+                else:
+                    scx = sc('chunk', ns, prefix=head + body[:off], suffix=body[off + ns:] + TAIL, variant='swar-rel')
+                jb = product_job(P, f'long-{nm}-L{L}-o{off}', ['ref', 'framing', 'safety'], scx, bud,
+                                 f'{head!r} + run of {L} x {fill!r} with bytes {off}..{off + ns - 1} symbolic + CRLF + chunk data', family=f'long-{nm}', mandatory=False)
+                jb.small = True; J.append(jb)
     for j in J:
         if j.name.startswith('digits'): j.small = True
     return J
